@@ -217,17 +217,27 @@ class Gen:
             out.append("---" if r.random() < 0.8 else "--- " + self.comment())
             for _ in range(r.choice([0, 0, 1])):
                 out.append(self.comment())
+        base = r.choice([4, 5, 8]) if r.random() < 0.12 else 0
         for d in range(ndocs):
             if d > 0:
                 out.append("---")
                 if r.random() < 0.3:
                     out.append(self.comment())
             self.anchors = []
-            out.extend(self.document(r.choice([1, 2, 3, 4])))
+            doc = self.document(r.choice([1, 2, 3, 4]))
+            if base and d == 0 and not any(l.startswith(("&", "!", "|", ">")) or l == "" for l in doc[:1]):
+                doc = [(" " * base + l) if l else l for l in doc]
+            out.extend(doc)
         return "\n".join(out) + "\n"
 
 
 ADVERSARIAL_STREAMS = [
+    # first documents whose root block is indented by 4 or more columns, with and without leading content
+    "    a: 1\n    b: 2\n", "# c\n    a: 1\n    b: 2\n", "     - x\n     - y\n", "---\n    a: 1\n", "\n      k:\n        - 1\n", "# c1\n\n        deep: [1, 2]\n",
+    "    a: 1\n---\n    b: 2\n", "    'q'\n", "      # c\n      a: 1\n",
+    # explicitly tagged scalars in every quoting style, with text whose type changes when the tag is lost
+    "- !!int \"123\"\n- !!int '123'\n- !!null \"\"\n- !!null ''\n- !!bool 'true'\n- !!bool \"false\"\n- !!float \"1.5\"\n- !!str \"x\"\n- !!str 'y'\n- !!str 12\n",
+    "a: !!int \"0x1F\"\nb: !!float '1e3'\nc: !!null \"~\"\nd: !custom \"q\"\ne: !custom 'q'\nf: !!binary \"aGk=\"\n", "k: !!str |\n  lit\nm: !!str >\n  fold\n",
     "a: 1\n", "---\na: 1\n", "--- \na: 1\n", "--- a: 1\n", "# c\n\n---\n# d\na: 1 # l\n# f\n", "a: 1\n---\nb: 2\n", "---\na: 1\n---\nb: 2\n...\n",
     "# only comment\n", "\n", "", "---\n", "---\n---\na: 1\n", "a: 1\n---\n---\nb: 2\n", "%YAML 1.1\n---\na: 1\n", " \n#c\na: 1\n", "#a\n#b\nx\n",
     "a: &x 1\nb: *x\nc: !!str 12\nd: !custom {e: f}\n", "- |\n  lit\n- >\n  fold\n  ed\n- \"dq\\n\"\n- 'sq'\n", "a: {b: 1, c: [x, y]}\ne: []\nf: {}\n",
@@ -384,7 +394,8 @@ def analyse(src, out, comments):
     lo, ro, so = py_process(out)
     if src == "" and out == b"\n":
         return "fail:leading", "the empty stream is printed as one newline", {"empty-stream-prints-newline"}
-    if not si and not so and li != lo:
+    # (the output may continue with the root's own head comment, which the scanner also takes: prefix comparison)
+    if not si and not so and not lo.startswith(li):
         fixed = b"".join((b"# " + l) if (l.strip(b" \t\r\f\v") == b"\n" and l != b"\n") else l for l in li.splitlines(True))
         if fixed == lo:
             return "fail:leading", "a whitespace-only leading line became a comment", {"whitespace-line-becomes-comment"}
